@@ -19,8 +19,9 @@ VERIF = os.path.dirname(os.path.dirname(os.path.abspath(__file__)))
 REPO = os.environ.get("STRENGTHS_REPO", "/repo")
 SRC = os.path.join(REPO, "src")
 ENGINE_SRC = os.path.join(SRC, "strengths", "engines", "strengths_engine", "src")
-EVIDENCE_DIR = os.path.join(VERIF, "evidence")
-REPLAY_DIR = os.path.join(VERIF, "replays")
+# overridable so that a run against a scratch copy (STRENGTHS_REPO=...) does not overwrite the evidence of the real tree
+EVIDENCE_DIR = os.environ.get("VERIF_EVIDENCE_DIR") or os.path.join(VERIF, "evidence")
+REPLAY_DIR = os.environ.get("VERIF_REPLAY_DIR") or os.path.join(VERIF, "replays")
 KNOWN_FINDINGS = os.path.join(VERIF, "known_findings.json")
 
 HOLDS, VIOLATED, INCONCLUSIVE = "holds", "violated", "inconclusive"
